@@ -152,6 +152,20 @@ def wl_ids(ctx, rng, i):
             ctx.skip("construction refused (%s) -- C03's subject" % type(e).__name__)
             return
         ids[route] = obj["id"]
+    # Python-native presentation: datetimes in assorted offsets, nested library objects, scalars for one-element lists
+    if t in m21.types:
+        from ..gen import native
+        ctx.ev()
+        try:
+            import stix2
+            cls = stix2.registry.class_for_type(t, "2.1", "observables")
+            kw = native.to_native("2.1", o, rng)
+            with warnings.catch_warnings():
+                warnings.simplefilter("ignore")
+                ids["constructor-native"] = cls(allow_custom=True, **kw)["id"]
+            ctx.count("native_constructions")
+        except Exception as e:
+            ctx.skip("native construction refused (%s)" % type(e).__name__)
     got = ids["parse"]
     ctx.see("types", t)
     if exp is not None:
